@@ -32,6 +32,18 @@ CLAIMED = {
              "a derivation is an Err. Tied to /repo by bounded-exhaustive + structured NAME cases, with a python RFC decoder as oracle.",
         technique="Coq proof (induction on fuel / on the RFC derivation) + bounded-exhaustive model/implementation correspondence",
         ref="DESIGN.md section 6, C06"),
+    "C01": dict(
+        text="Kernel-checked theorems over the transliterated parsers, in which every Rust indexing / slicing / unwrap is a "
+             "partial operation yielding Panic and every loop runs on explicit fuel: for EVERY byte string Packet::parse and the "
+             "eight header peeks return Ok or Err (no panic site reachable, fuel never exhausted: termination by a measure, with "
+             "the iteration bound |d|+640 per name); accepted messages hold at most (|d|-1)/5 entries and the up-front capacity "
+             "is <= |d|/5. Tied to /repo by systematic malformation (every cut point, +-1 and every shorter RDLENGTH on every "
+             "length-like field of every record type, short buffers, pointer graphs) run on model and implementation, with a "
+             "watchdog and a counting allocator on the implementation side. PARTIAL: wall-clock time and real allocator "
+             "behaviour are measured, not proved; the linear-time sentence is refuted across names (quadratic pointer chains, "
+             "DESIGN F22) and is not claimed.",
+        technique="Coq proof (safety lemmas per parser composed by induction; termination measure) + model/implementation correspondence on systematic malformations",
+        ref="DESIGN.md section 6, C01"),
 }
 
 PENDING_REASON = "not claimed yet: model, theorems and correspondence slice for this property are still being built (see DESIGN.md section 10)"
